@@ -50,6 +50,9 @@ def compose(outer: str, inner):
     """the link of `outer(inner)` for outer in norm / norm1 / view"""
     k = inner[0]
     if outer == 'norm':
+        if k == 'structElem':
+            # (round 4, C09 aliasing guards) `Bc = Bc.copy()` / `.astype` of a structuring element: rank, shape, size unchanged
+            return inner
         return ('norm', inner[1]) if k in ('pass', 'norm') else inner if k in ('norm1', 'view') else OTHER
     if outer == 'norm1':
         return ('norm1', inner[1]) if k in ('pass', 'norm', 'norm1') else OTHER
@@ -104,7 +107,7 @@ def subst(sm, argmap):
         return ('fresh', L[1]) if L[0] in ('pass', 'norm') else ('other', 'fresh of a converted array')
     if k == 'structElem':
         A, B = get(sm[1]), get(sm[2])
-        return ('structElem', A[1], B[1]) if A[0] in ('pass', 'norm', 'output', 'fresh') and B[0] == 'pass' else ('other', 'structuring element')
+        return ('structElem', A[1], B[1]) if A[0] in ('pass', 'norm', 'output', 'fresh') and B[0] in ('pass', 'norm') else ('other', 'structuring element')
     if k in ('intOf', ):
         A = get(sm[1])
         return ('intOf', A[1]) if A[0] == 'pass' else ('other', 'int(…)')
@@ -224,7 +227,8 @@ class _Walker:
                 return ('other', _src(e))
             if f in ('get_structuring_elem', 'morph.get_structuring_elem') and len(e.args) == 2:
                 a, b = self.link(e.args[0], loc), self.link(e.args[1], loc)
-                if a[0] in ('pass', 'norm', 'output', 'fresh') and b[0] == 'pass':
+                if a[0] in ('pass', 'norm', 'output', 'fresh') and b[0] in ('pass', 'norm'):
+                    # (round 4: `norm` = the parameter or a guarded copy of it, `if np.may_share_memory(Bc, out): Bc = Bc.copy()`)
                     return ('structElem', a[1], b[1])
                 return ('other', _src(e))
             if (f == 'np.zeros' and len(e.args) == 2 and ast.unparse(e.args[1]) == 'bool' and isinstance(a0, ast.Tuple) and len(a0.elts) == 2):
